@@ -1,0 +1,115 @@
+//go:build verif
+
+// Contracts for package httpcache, checked by /verif/bin/govc (see /verif/DESIGN.md).
+// Comment-only: with the `verif` tag off this file is not part of the package.
+package httpcache
+
+// The collaborators of a transport built by newTransport are all present.
+//@ spec func wired(r *transport) bool = r != nil && r.cache != nil && r.upstream != nil && r.logger != nil && r.rmc != nil && r.vm != nil && r.uk != nil && r.fc != nil && r.ce != nil && r.siep != nil && r.ci != nil && r.rs != nil && r.vrh != nil && r.clock != nil
+
+//@ func cloneRequest
+//@   property C02 C16
+//@   requires req != nil
+//@   pure
+//@   fresh
+//@   ensures result != nil && result != req                                                   # name: fresh-copy
+//@   ensures result.Method == req.Method && result.URL == req.URL                             # name: same-line
+//@   ensures result.Header != nil && fresh(result.Header)                                     # name: fresh-header
+//@   ensures forall k string :: has(result.Header, k) == has(req.Header, k) && hget(result.Header, k) == hget(req.Header, k)   # name: same-fields
+
+//@ func withConditionalHeaders
+//@   property C02 C16 C18
+//@   requires req != nil
+//@   pure
+//@   let etag = hget(storedHdr, "Etag")
+//@   let lm = hget(storedHdr, "Last-Modified")
+//@   ensures result != nil                                                                    # name: non-nil
+//@   ensures etag == "" && lm == "" ==> result == req                                         # name: unchanged-without-validators
+//@   ensures etag != "" || lm != "" ==> fresh(result) && fresh(result.Header)                 # name: clone-when-validators
+//@   ensures etag != "" ==> hget(result.Header, "If-None-Match") == etag                      # name: if-none-match
+//@   ensures lm != "" ==> hget(result.Header, "If-Modified-Since") == lm                      # name: if-modified-since
+//@   ensures result.Method == req.Method && result.URL == req.URL                             # name: same-line
+//@   ensures forall k string :: k != "If-None-Match" && k != "If-Modified-Since" ==> hget(result.Header, k) == hget(req.Header, k)   # name: other-fields-kept
+
+//@ func (*transport).roundTripTimed
+//@   property C18 C01
+//@   requires wired(r) && req != nil
+//@   requires !dirsHas(ccText(req.Header))["only-if-cached"]                                  # name: not-only-if-cached
+//@   assigns upstreamCalls, lastUpstreamStatus, lastUpstreamFailed, now
+//@   ensures upstreamCalls == old(upstreamCalls) + 1                                          # name: one-upstream-call
+//@   ensures (resp != nil && resp.Header != nil && err == nil) || (resp == nil && err != nil) # name: result-shape
+//@   ensures ns(start) >= ns(old(now)) && ns(end) >= ns(start) && ns(now) >= ns(end)          # name: times-ordered
+
+// The synthesised 504 (http.ReadResponse over constant bytes): trusted shape.
+//@ func make504Response
+//@   trusted
+//@   pure
+//@   ensures result0 != nil && result0.Header != nil && result1 == nil && fresh(result0) && fresh(result0.Header) && result0.StatusCode == 504
+//@   ensures hget(result0.Header, "X-Httpcache-Status") == "BYPASS" && len(get(result0.Header, "X-Httpcache-Status")) == 1 && !has(result0.Header, "X-From-Cache")
+
+//@ spec func inSWR(a time.Duration, l time.Duration, hs Arr[string, bool], vs Arr[string, string]) bool = ccValidA(hs, vs, "stale-while-revalidate") && satsub(a, l) < ccDurA(vs, "stale-while-revalidate")
+
+//@ func (*transport).serveFromCache
+//@   property C02 C11
+//@   requires wired(r) && req != nil && stored != nil && stored.Data != nil && stored.Data.Header != nil && freshness != nil && freshness.Age != nil
+//@   requires noCacheQualified ==> noCacheFieldsSeq != nil
+//@   assigns map(stored.Data.Header), now
+//@   ensures result0 == stored.Data && result1 == nil                              # name: returns-stored
+//@   ensures upstreamCalls == old(upstreamCalls)                                    # name: no-upstream
+
+//@ func (*transport).handleStaleWhileRevalidate
+//@   property C01 C02 C20
+//@   requires wired(r) && req != nil && stored != nil && stored.Data != nil && stored.Data.Header != nil && freshness != nil
+//@   assigns *
+//@   ensures result0 == stored.Data && result1 == nil                              # name: returns-stored
+//@   ensures upstreamCalls == old(upstreamCalls)                                    # name: no-upstream-in-foreground
+
+//@ func (*transport).handleCacheHit
+//@   property C01 C02 C18
+//@   requires wired(r) && req != nil && stored != nil && stored.Data != nil && stored.Data.Header != nil
+//@   let tq = old(ccText(req.Header))
+//@   let ts = old(ccText(stored.Data.Header))
+//@   let hq = dirsHas(tq)
+//@   let vq = dirsVal(tq)
+//@   let hs = dirsHas(ts)
+//@   let vs = dirsVal(ts)
+//@   let a0 = old(initialAge(hget(stored.Data.Header, "Age"), dateOf(stored.Data.Header), stored.RequestedAt, stored.ReceivedAt))
+//@   let A0 = old(ageAt(a0, stored.ReceivedAt, now))
+//@   let Lresp = old(lifeUpper(stored.Data.Header, stored.Data.StatusCode, hs, vs, dateOf(stored.Data.Header)))
+//@   let Lreq = reqCap(Lresp, hq, vq)
+//@   let served = result0 == old(stored.Data) && result1 == nil && upstreamCalls == old(upstreamCalls)
+//@   assigns *
+//@   ensures served ==> A0 < Lreq || maxStaleOK(A0, Lreq, hq, vq) || hq["only-if-cached"] || inSWR(A0, Lresp, hs, vs)   # name: stale-only-with-permission  props: C01
+//@   ensures served ==> !unqualNoCacheA(hs, vs)                                          # name: response-no-cache-validated   props: C02
+//@   ensures served ==> !(hs["must-revalidate"] && A0 >= Lresp)                          # name: must-revalidate-validated     props: C02
+//@   ensures served ==> !hq["no-cache"]                                                  # name: request-no-cache-validated    props: C02
+//@   ensures served ==> !(ccValidA(hq, vq, "max-age") && A0 > ccDurA(vq, "max-age") && !maxStaleOK(A0, Lreq, hq, vq))   # name: request-max-age-validated   props: C02
+//@   ensures hq["only-if-cached"] ==> upstreamCalls == old(upstreamCalls)                # name: only-if-cached-no-network     props: C18
+//@   ensures (result0 != nil) != (result1 != nil)                                        # name: result-shape   props: C10
+
+//@ spec func reqOIC(req *http.Request) bool = dirsHas(ccText(req.Header))["only-if-cached"]
+
+//@ func (*transport).handleCacheMiss
+//@   property C18 C10
+//@   requires wired(r) && req != nil
+//@   assigns *
+//@   ensures (result0 != nil) != (result1 != nil)                                          # name: result-shape   props: C10
+//@   ensures old(reqOIC(req)) ==> upstreamCalls == old(upstreamCalls) && result0 != nil && result0.StatusCode == 504   # name: only-if-cached-504   props: C18
+//@   ensures !old(reqOIC(req)) ==> upstreamCalls == old(upstreamCalls) + 1                 # name: one-upstream-call
+//@   ensures result1 != nil ==> lastUpstreamFailed                                         # name: error-only-from-origin   props: C10
+//@   ensures result0 != nil ==> result0.Header != nil                                      # name: header-non-nil
+
+//@ func (*transport).handleUnrecognizedMethod
+//@   property C18 C10 C07
+//@   requires wired(r) && req != nil && req.URL != nil
+//@   assigns *
+//@   ensures (result0 != nil) != (result1 != nil)                                          # name: result-shape   props: C10
+//@   ensures old(reqOIC(req)) ==> upstreamCalls == old(upstreamCalls)                      # name: only-if-cached-no-network   props: C18
+//@   ensures result1 != nil ==> lastUpstreamFailed                                         # name: error-only-from-origin   props: C10
+
+//@ func (*transport).RoundTrip
+//@   property C18 C10
+//@   requires wired(r) && req != nil && req.URL != nil
+//@   assigns *
+//@   ensures (result0 != nil) != (result1 != nil)                                          # name: result-shape   props: C10
+//@   ensures old(reqOIC(req)) ==> upstreamCalls == old(upstreamCalls)                      # name: only-if-cached-no-network   props: C18
